@@ -92,9 +92,10 @@ def run(res: Results, idx: Index, tier: str) -> None:
     else:
         res.violation("R-C15b", f"{UI}:{(web or saves or [s.node])[0].lineno}", key, "the web export branch does not force a single self-contained file (save_as_external_data=False)", s.qualname)
     key = f"{UI}::_save_model_proto::web-stale-sidecar"
-    removes = [c for c in walk_no_nested(s.node) if isinstance(c, ast.Call) and (call_name(c) or "") in ("os.remove", "os.unlink") and any(_mentions_web(e) and w for e, w in path_conditions(c))]
+    events = _removal_events(idx, s)
+    removes = [c for c in events if any(_mentions_web(e) and w for e, w in c.conds)]
     du_s = defuse(s.node)
-    good = [c for c in removes if c.args and du_s.derived_from(c.args[0], {"dest"}) and not any(isinstance(e, ast.Compare) and any(isinstance(x, ast.Call) and (call_name(x) or "").endswith("getsize") for x in ast.walk(e)) for e, w in path_conditions(c))]
+    good = [c for c in removes if c.args and du_s.derived_from(c.args[0], {"dest"}) and not any(isinstance(e, ast.Compare) and any(isinstance(x, ast.Call) and (call_name(x) or "").endswith("getsize") for x in ast.walk(e)) for e, w in c.conds)]
     if good:
         res.ok("R-C15b", f"{UI}:{good[0].lineno}", key, "a pre-existing <dest>.data sidecar is removed in web mode", s.qualname)
     else:
@@ -111,13 +112,13 @@ def run(res: Results, idx: Index, tier: str) -> None:
         res.violation("R-C15b", f"{UI}:{(std or [s.node])[0].lineno}", key, "the standard export does not name a single sidecar after the destination's basename: exports to different paths in one directory would share or miss their data file", s.qualname)
     # ---------------- R-C15c
     res.rule("R-C15c", "the standard export deletes a sidecar only after the save and only when the saved model references no external data", floor=1)
-    std_removes = [c for c in walk_no_nested(s.node) if isinstance(c, ast.Call) and (call_name(c) or "") in ("os.remove", "os.unlink", "shutil.rmtree", "os.rmdir") and c not in removes]
+    std_removes = [c for c in events if c not in removes]
     if not std and std_removes:
         raise AnalysisError("_save_model_proto: no standard save_model call found")
     for i, c in enumerate(std_removes):
         key = f"{UI}::_save_model_proto::standard-sidecar-removal#{i}"
         site = f"{UI}:{c.lineno}"
-        conds = path_conditions(c)
+        conds = c.conds
         save_line = max(x.lineno for x in std)
 
         def _reads_saved_external(e: ast.AST, seen=None) -> bool:
@@ -173,7 +174,7 @@ def run(res: Results, idx: Index, tier: str) -> None:
         key = f"{UI}::_save_model_proto::clean-sidecar-before-save#{i}"
         pre = [c for c in std_removes if c.lineno < sv.lineno and any(isinstance(a, ast.Name) and ("data" in a.id) for a in c.args)]
         if pre:
-            res.ok("R-C15e", f"{UI}:{sv.lineno}", key, f"`{src(pre[0], 40)}` (line {pre[0].lineno}) clears the sidecar path before the save", s.qualname)
+            res.ok("R-C15e", f"{UI}:{sv.lineno}", key, f"`{src(pre[0].node, 40)}` (line {pre[0].lineno}) clears the sidecar path before the save", s.qualname)
         else:
             res.violation("R-C15e", f"{UI}:{sv.lineno}", key, "nothing removes an existing sidecar before `onnx.save_model(..., save_as_external_data=True)`: onnx appends the tensors to the file a previous export to the same path "
                           "left behind, so the sidecar grows with every export and the .onnx bytes (offsets) of the same request differ from run to run", s.qualname)
@@ -186,6 +187,37 @@ def run(res: Results, idx: Index, tier: str) -> None:
     else:
         res.unresolved("R-C15b", f"{UI}:{s.node.lineno}", key, "return value is not the destination path", s.qualname)
 
+
+
+class _Removal:
+    """One point of _save_model_proto where a file is deleted: a direct os.remove / os.unlink call, or a call of a local helper
+    whose body deletes (then the helper's own guards count as well)."""
+    def __init__(self, node: ast.Call, args, conds, via: str = ""):
+        self.node, self.args, self.conds, self.via = node, list(args), list(conds), via
+        self.lineno = node.lineno
+
+
+_REMOVERS = ("os.remove", "os.unlink", "shutil.rmtree", "os.rmdir")
+
+
+def _removal_events(idx: Index, s: FuncInfo) -> List["_Removal"]:
+    out: List[_Removal] = []
+    for c in walk_no_nested(s.node):
+        if not isinstance(c, ast.Call):
+            continue
+        cn = call_name(c) or ""
+        if cn in _REMOVERS:
+            out.append(_Removal(c, c.args, path_conditions(c)))
+            continue
+        g = s.nested().get(cn) if hasattr(s, "nested") and cn else None
+        if g is None and cn:
+            g = idx.resolve_func(idx.module(UI), cn, scope=s)
+        if g is None or g is s:
+            continue
+        for ic in walk_no_nested(g.node):
+            if isinstance(ic, ast.Call) and (call_name(ic) or "") in _REMOVERS:
+                out.append(_Removal(c, ic.args, path_conditions(c) + path_conditions(ic), via=g.name))
+    return out
 
 def _mentions_web(e: ast.AST) -> bool:
     return any(isinstance(x, ast.Constant) and x.value == "web" for x in ast.walk(e))
